@@ -65,18 +65,40 @@ func (m *Machine) trap(name string, fn *ssa.Function, args []value) value {
 	}
 	// Record and continue with zero results, so that the harness's own
 	// (natively confirmable) assertions can expose the bypass.
+	if name == "(*os.File).Read" || name == "(*os.File).ReadAt" {
+		// a trapped file has no content: end of file (zero results would loop forever)
+		if iop := m.eng.pkgByPath["io"]; iop != nil {
+			if g, ok := iop.Members["EOF"].(*ssa.Global); ok {
+				return tuple{int64(0), m.load(m.globals[g])}
+			}
+		}
+	}
 	note := "trap: real-OS function reached: " + name
+	if m.path.trapsExpected {
+		note = ""
+	}
 	seen := false
 	for _, s := range m.path.res.Traps {
 		if s == note {
 			seen = true
 		}
 	}
-	if !seen {
+	if !seen && note != "" {
 		m.path.res.Traps = append(m.path.res.Traps, note)
 	}
 	if fn == nil {
 		return nil
+	}
+	// remember string arguments (host paths) for verifrt.TrappedStrings
+	params := fn.Signature.Params()
+	off := 0
+	if fn.Signature.Recv() != nil {
+		off = 1
+	}
+	for i := 0; i < params.Len() && i+off < len(args); i++ {
+		if isString(params.At(i).Type()) {
+			m.path.trapStrings = append(m.path.trapStrings, args[i+off])
+		}
 	}
 	res := fn.Signature.Results()
 	switch res.Len() {
@@ -163,6 +185,15 @@ func init() {
 		verifrtPath + ".Thorough": func(m *Machine, fr *frame, a []value) value { return m.eng.Thorough },
 		verifrtPath + ".Seed": func(m *Machine, fr *frame, a []value) value { return int64(m.eng.Seed) },
 		verifrtPath + ".Symbolic": func(m *Machine, fr *frame, a []value) value { return true },
+		verifrtPath + ".ExpectTraps": func(m *Machine, fr *frame, a []value) value {
+			m.path.trapsExpected = true
+			return nil
+		},
+		verifrtPath + ".TrappedStrings": func(m *Machine, fr *frame, a []value) value {
+			out := make([]value, len(m.path.trapStrings))
+			copy(out, m.path.trapStrings)
+			return out
+		},
 		verifrtPath + ".EqString": func(m *Machine, fr *frame, a []value) value {
 			return m.strBinop(token.EQL, a[0], a[1])
 		},
